@@ -4,6 +4,7 @@
 //         after every op the graph is drained (wait_for_all) so the forwarder task of the node has run
 //   mt  : real threads on queue/sequencer/limiter/join graphs (oracle) — see tools/props/c15.py
 #include "common.h"
+#include <deque>
 #include <memory>
 #include <mutex>
 #include <algorithm>
@@ -327,6 +328,51 @@ static int joinr_seq() {
     }
     return 0;
 }
+// mode "priobatch": priority_queue_node<long>: several operations handed to the node's aggregator handler as ONE batch (white box: a linked list of buffer_operation
+// records passed to handle_operations, as happens when several threads queue operations while another thread is the active handler).
+// case: (op v)* with op 1 v put | 2 get | 3 reserve | 4 release | 5 consume | 9 0 end of batch.   output per op: status (1 succeeded / 0 failed), value (for get / reserve)
+static int prio_batch() {
+    using node_t = tbb::flow::priority_queue_node<long>; using op_t = node_t::buffer_operation;
+    std::vector<i128> c; Out o; Watchdog wd(20.0);
+    while (read_case(c)) {
+        wd.arm(&o);
+        tbb::flow::graph g; node_t n(g);
+        std::deque<op_t> ops; std::deque<long> vals; std::vector<int> kinds;
+        auto flush_batch = [&] {
+            if (ops.empty()) return;
+            for (size_t i = 0; i + 1 < ops.size(); ++i) ops[i].next = &ops[i + 1];
+            ops.back().next = nullptr;
+            n.handle_operations(&ops[0]);
+            for (size_t i = 0; i < ops.size(); ++i) {
+                o.put(ops[i].status.load() == tbb::detail::d2::SUCCEEDED ? 1 : 0);
+                o.put((kinds[i] == 2 || kinds[i] == 3) && ops[i].status.load() == tbb::detail::d2::SUCCEEDED ? vals[i] : 0);
+                if (ops[i].ltask && ops[i].ltask != tbb::detail::d2::SUCCESSFULLY_ENQUEUED) tbb::detail::d2::spawn_in_graph_arena(g, *ops[i].ltask);
+            }
+            g.wait_for_all();
+            ops.clear(); vals.clear(); kinds.clear();
+        };
+        for (size_t p = 0; p + 1 < c.size(); p += 2) {
+            int op = (int)c[p]; long v = (long)c[p + 1];
+            if (op == 9) { flush_batch(); continue; }
+            vals.push_back(v); kinds.push_back(op);
+            switch (op) {
+            case 1: ops.emplace_back(vals.back(), node_t::put_item); break;
+            case 2: ops.emplace_back(vals.back(), node_t::req_item); break;
+            case 3: ops.emplace_back(vals.back(), node_t::res_item); break;
+            case 4: ops.emplace_back(node_t::rel_res); break;
+            default: ops.emplace_back(node_t::con_res); break;
+            }
+        }
+        flush_batch();
+        // drain: a reservation still held is released, then single-operation batches of get until the node is empty
+        o.put(-7);
+        if (n.my_reserved) { ops.emplace_back(node_t::rel_res); vals.push_back(0); kinds.push_back(4); ops.back().next = nullptr; n.handle_operations(&ops[0]);
+                             if (ops[0].ltask && ops[0].ltask != tbb::detail::d2::SUCCESSFULLY_ENQUEUED) tbb::detail::d2::spawn_in_graph_arena(g, *ops[0].ltask); g.wait_for_all(); ops.clear(); vals.clear(); kinds.clear(); }
+        for (int guard = 0; guard < 10000; ++guard) { long v = 0; if (!n.try_get(v)) break; o.put(v); }
+        wd.disarm(); o.flush();
+    }
+    return 0;
+}
 static int mt_join(int P, unsigned seed, int n, int policy) {   // two ports fed by different threads: queueing -> i-th with i-th; reserving -> all-or-nothing; key_matching -> same key
     tbb::global_control gc(tbb::global_control::max_allowed_parallelism, P);
     graph g;
@@ -358,6 +404,7 @@ static int mt_join(int P, unsigned seed, int n, int policy) {   // two ports fed
 int main(int argc, char** argv) {
     std::string mode = argc > 1 ? argv[1] : "";
     if (mode == "limseq") return lim_seq();
+    if (mode == "priobatch") return prio_batch();
     if (mode == "joinseq") return join_seq();
     if (mode == "joinrseq") return joinr_seq();
     if (mode == "seq") {
